@@ -363,7 +363,7 @@ func (s *sgSuite) opConvertERC20() {
 func init() { suites["signers"] = runSigners }
 
 func runSigners(seed uint64, nOps int, outPath string) map[string]int {
-	s := &sgSuite{r: &Rng{s: seed*0x9e3779b97f4a7c15 + 23}, stat: map[string]int{}}
+	s := &sgSuite{r: seedRng("signers", seed), stat: map[string]int{}}
 	s.t = NewTrace(outPath)
 	defer s.t.Close()
 	done := 0
